@@ -47,6 +47,58 @@ impl World {
         }
     }
 
+    /// One tick in which every proposal on its way to `target` is preceded by doctored copies of itself: the fields that the block's
+    /// signature does not cover (the TC, the QC's round and votes) are replaced -- what anyone relaying an honest leader's proposal can do.
+    fn tick_doctor(&mut self, target: usize) -> usize {
+        self.tick += 1;
+        let mut injected = 0;
+        for i in 0..self.rig.cfg.n {
+            if self.rig.is_real(i) {
+                self.rig.advance(i, 50);
+            }
+        }
+        self.pool.extend(self.rig.take_frames());
+        let now: Vec<Frame> = self.pool.drain(..).collect();
+        for f in now {
+            self.capture(&f);
+            if f.to == H {
+                let ack = f.port == Port::Mempool || matches!(Rig::decode(&f), Some(ConsensusMessage::Propose(_)));
+                if ack {
+                    self.rig.ack(&f);
+                }
+                self.to_h.push(f);
+                continue;
+            }
+            if f.to == target {
+                if let Some(ConsensusMessage::Propose(b)) = Rig::decode(&f) {
+                    let empty = |round: u64| consensus::TC { round, votes: Vec::new() };
+                    let mut variants: Vec<Block> = Vec::new();
+                    for tc in [empty(0), empty(b.qc.round), empty(b.round.saturating_sub(1)), empty(u64::MAX)] {
+                        let mut x = b.clone();
+                        x.tc = Some(tc);
+                        variants.push(x);
+                    }
+                    let mut x = b.clone();
+                    x.qc.votes.clear();
+                    variants.push(x);
+                    let mut x = b.clone();
+                    x.qc.round = x.qc.round.wrapping_add(1);
+                    variants.push(x);
+                    let mut x = b.clone();
+                    x.qc.votes.truncate(1);
+                    x.tc = Some(consensus::TC { round: b.qc.round, votes: vec![(self.rig.keys[H].0, crypto::Signature::default(), u64::MAX)] });
+                    variants.push(x);
+                    for v in variants {
+                        self.rig.inject_msg(target, &ConsensusMessage::Propose(v));
+                        injected += 1;
+                    }
+                }
+            }
+            self.rig.deliver(&f, true);
+        }
+        injected
+    }
+
     fn capture(&mut self, f: &Frame) {
         let kind: &'static str = match f.port {
             Port::Consensus => match Rig::decode(f) {
@@ -152,6 +204,13 @@ fn mutate(rng: &mut Rng, b: &Bytes) -> Bytes {
 /// the hostile classes (the list is the class matrix of Hostile.tla: port x shape)
 fn burst(w: &mut World, class: &str, port: Port, target: usize, count: usize) -> usize {
     let mut sent = 0;
+    if class == "relayed_proposal_unsigned_fields_doctored" {
+        // runs the system for a while; every proposal that reaches the target meanwhile is preceded by doctored copies
+        for _ in 0..(4 * count).max(40) {
+            sent += w.tick_doctor(target);
+        }
+        return sent;
+    }
     let keys_h: (PublicKey, SecretKey) = (w.rig.keys[H].0, crate::rig::clone_sk(&w.rig.keys[H].1));
     let _ = &keys_h;
     for k in 0..count {
@@ -256,6 +315,7 @@ pub const CLASSES: &[(&str, &[Port])] = &[
     ("byzantine_member_absurd_rounds", &[Port::Consensus]),
     ("huge_length_prefix", &[Port::Consensus, Port::Mempool]),
     ("empty_and_tiny_transactions", &[Port::Tx]),
+    ("relayed_proposal_unsigned_fields_doctored", &[Port::Consensus]),
 ];
 
 fn decoder_totality(w: &mut NdWriter, rng: &mut Rng) -> usize {
